@@ -48,7 +48,15 @@ def handle (args : List String) (impl : String) : R Ans :=
   | [ty, "hist", ini, ops, other] => do
     let some c := Cfg.ofName ty | throw "bad-type"
     let ops ← if ops == "-" then pure [] else (ops.splitOn ",").mapM parseOp
-    let other ← natDigits other
+    -- `other`: literal bases, or `W<m>` = the final string with its first and last `m` bases exchanged (a near twin of the final
+    -- k-mer whose storage words are a permutation of each other's pieces)
+    let otherLit ← if other.startsWith "W" then pure [] else natDigits other
+    let swapM ← if other.startsWith "W" then nat (other.drop 1).toString else pure 0
+    let otherOf := fun (fl : List Nat) =>
+      if other.startsWith "W" then
+        let m := min swapM (fl.length / 2)
+        fl.drop (fl.length - m) ++ (fl.drop m).take (fl.length - 2 * m) ++ fl.take m
+      else otherLit
     let (s0?, l0) ← match ini.splitOn ":" with
       | ["b", d] => do let d ← natDigits d; pure (fromBytes c d, d.take c.K)
       | ["u", r] => do let r ← nat r; pure (fromU64 c r, KSpec.digits4 c.K r)
@@ -60,11 +68,12 @@ def handle (args : List String) (impl : String) : R Ans :=
     let final := trace.headD s0
     let fl := toSeq c final
     let canon := (fromBytes c fl).getD final
+    let other := otherOf fl
     let oth := (fromBytes c other).getD final
     let ord := fun (a b : Bool) => if a then "lt" else if b then "gt" else "eq"
     let sd := sortDedup (neighbours fl)
     let tail (eq hash : Bool) (cmpo : String) (eqo : Bool) (pos len : Nat) :=
-      s!"eq={if eq then 1 else 0} hash={if hash then 1 else 0} cmpother={cmpo} eqother={if eqo then 1 else 0} pos={pos} len={len}"
+      s!"eq={if eq then 1 else 0} hash={if hash then 1 else 0} cmpother={cmpo} eqother={if eqo then 1 else 0} hashother={if eqo then 1 else 0} pos={pos} len={len}"
     let model := ";".intercalate (trace.reverse.map (showK c)) ++ "|" ++
       tail (final == canon) (final == canon) (ord (lt c final oth) (lt c oth final)) (final == oth) (sd.findIdx (· == fl)) sd.length
     -- verdict on the implementation's answer
@@ -86,6 +95,7 @@ def handle (args : List String) (impl : String) : R Ans :=
           if ¬ inv c raw ∧ v == "ok" then v := "FAIL:bits-set-outside-the-K-lanes"
           first := false
           lastBases := bases
+        let other := otherOf lastBases
         let lexo := ord (decide (lastBases < other)) (decide (other < lastBases))
         let sd' := sortDedup (neighbours lastBases)
         let expectTail := tail true true lexo (lastBases == other) (sd'.findIdx (· == lastBases)) sd'.length
